@@ -1000,6 +1000,12 @@ class Interp:
                 raise Incomplete("yield outside an interpreted generator")
             frame.yields.append(self.eval(e.value, env, frame) if e.value is not None else None)
             return None
+        if t is ast.YieldFrom:
+            if frame.yields is None:
+                raise Incomplete("yield from outside an interpreted generator")
+            for item in self.iterate(self.eval(e.value, env, frame), e):
+                frame.yields.append(item)
+            return None
         if t is ast.Starred:
             raise Incomplete("starred expression outside call/display")
         if t is ast.NamedExpr:
